@@ -55,7 +55,25 @@ func indexTargets() {
 
 var sink interface{} // keeps results alive so that the calls are not optimised away
 
+// watchdog aborts the worker as soon as the Go runtime has mapped more than workerMemLimit bytes:
+// a runaway allocation is reported within milliseconds instead of after the kernel limit (ulimit -v,
+// set by the python side as a second line of defence) has been reached.
+const workerMemLimit = 256 << 20
+
+func watchdog() {
+	s := []metrics.Sample{{Name: "/memory/classes/total:bytes"}}
+	for {
+		time.Sleep(10 * time.Millisecond)
+		metrics.Read(s)
+		if v := s[0].Value.Uint64(); v > workerMemLimit {
+			fmt.Fprintf(os.Stderr, "watchdog: out of memory: %d bytes mapped by the runtime\n", v)
+			os.Exit(3)
+		}
+	}
+}
+
 func workerMain() {
+	go watchdog()
 	rd := bufio.NewReaderSize(os.Stdin, 1<<20)
 	wr := bufio.NewWriterSize(os.Stdout, 1<<16)
 	for {
@@ -74,9 +92,7 @@ func workerMain() {
 		in := hx.Exact(hx.UnHex(f[1]))
 		class, value, alloc := runOne(t, in, arg)
 		fmt.Fprintf(wr, "%s\t%s\t%d\n", class, value, alloc)
-		if rd.Buffered() == 0 || err != nil {
-			wr.Flush()
-		}
+		wr.Flush() // every reply at once: an unanswered request is then the one being executed
 		if err != nil {
 			return
 		}
@@ -154,8 +170,18 @@ type runner struct {
 	calls, restarts, skipped int
 }
 
-// after this many expensive failures of one target its remaining cases are skipped
+// after this many expensive failures of one target its remaining cases are skipped; after
+// maxExpensiveTotal of them over all targets the run stops issuing calls (there is plenty to report)
 const maxExpensive = 2
+const maxExpensiveTotal = 16
+
+func (r *runner) totalExpensive() int {
+	n := 0
+	for _, v := range r.expensive {
+		n += v
+	}
+	return n
+}
 
 func newRunner(budget time.Duration) *runner {
 	return &runner{budget: budget, hung: map[string]bool{}, expensive: map[string]int{}}
@@ -273,7 +299,7 @@ func firstLine(s string) string {
 // 64 bytes of heap per input byte plus 256 KiB of slack for fixed-size structures and messages.
 func allocLimit(n int) uint64 { return 64*uint64(n) + 256<<10 }
 
-// call classifies one call.  A timeout is confirmed with a fresh worker and a 5x budget before it
+// call classifies one call.  A timeout is confirmed with a fresh worker and a 3x budget before it
 // is reported as a hang (wall-clock noise must not become a false alarm).
 func (r *runner) call(name string, in []byte, arg int) (class, value string) {
 	class, value, alloc := r.once(name, in, arg, r.budget)
@@ -316,7 +342,7 @@ func (r *runner) batch(cs []tcase, each func(i int, res result)) {
 		var req bytes.Buffer
 		for i < len(cs) && len(ix) < chunk {
 			c := cs[i]
-			if r.expensive[c.target] >= maxExpensive {
+			if r.expensive[c.target] >= maxExpensive || r.totalExpensive() >= maxExpensiveTotal {
 				r.skipped++
 				each(i, result{"skipped", ""})
 			} else {
@@ -358,6 +384,9 @@ func (r *runner) batch(cs []tcase, each func(i int, res result)) {
 			}
 		}
 		if broken {
+			if os.Getenv("C16_DEBUG") != "" {
+				fmt.Fprintf(os.Stderr, "broken chunk at %s %s (answered %d of %d)\n", cs[ix[k]].target, hx.Hex(cs[ix[k]].in), k, len(ix))
+			}
 			r.stop()
 			<-werr
 			c := cs[ix[k]]
